@@ -6,6 +6,9 @@
 //! trusted: R13: `for x in a..=b` rewritten into an explicit loop over the inclusive range
 //! trusted: R15 (deep slice): update_persisted_channel builds its result from async-move blocks (impl Future, outside the verifier); the unit extracts the body of the block that runs after the consolidating full-monitor write verbatim as an async fn of (monitor_name, latest_update_id, write_status), together with the function-local const LEGACY_CLOSED_CHANNEL_UPDATE_ID; its precondition is the meaning of a successful write: the stored full monitor then is the one just written (stored_latest == its latest_update_id); the decision update-vs-full-monitor and the writes themselves are dropped and not claimed
 //! trusted: R15 (deep slice): maybe_read_channel_monitor_with_updates joins futures and iterator adapters; the unit extracts the filter predicate that selects the updates to replay verbatim; and the statement(s) between collecting the listed names and filtering them (the sort) verbatim as a function of the list; `updates` is an environment type standing for Vec<UpdateName> whose sort / sort_unstable / sort_by_key / sort_unstable_by_key / reverse carry the std contracts (permutation; ordered by Ord / by the key; a key closure `|u| E`, which Verus gives no specification, is rewritten into the closure returning `(E) as i128` with that as its postcondition, so only integer keys of at most 64 bits are understood, anything else is a tool error), and the derived Ord of UpdateName is taken to be the lexicographic order on (id, name) (trusted: #[derive(Ord)] on a tuple struct); reading and applying the updates in iteration order (MultiResultFuturePoller keeps the order of its futures) are dropped and not claimed
+//! plemma: C19 call-site precondition of KVStoreSync::remove in the blanket Persist impl's archive_persisted_channel: the live copy of a monitor is deleted only after the very bytes read from it were accepted by the archive namespace
+//! trusted: sync_persist: the three methods of `impl<K: KVStoreSync> Persist for K` are verified as inherent methods of a Store stub whose write reports its result through the uninterpreted write_ok, whose read of the live namespace returns live_value(key), and whose remove carries the archive precondition; ChannelMonitor::encode / MonitorName::to_key uninterpreted; enum ChannelMonitorUpdateStatus extracted; R5: the signer type parameter is dropped
+//! assume: nobody else deletes from the archive namespace and the live value of the key does not change while archive_persisted_channel runs
 //! assume: stored_latest(key) is stable for the duration of the functions (no concurrent writer replaces the full monitor with an older one)
 use vstd::prelude::*;
 use vstd::std_specs::cmp::*;
@@ -235,5 +238,98 @@ impl Updates {
 //@with
     updates.sort_unstable(); updates.reverse();
 //@end
+
+// ---- the blanket Persist impl for KVStoreSync: what "Completed" means, and archiving -------------------------
+pub mod sync_persist {
+use vstd::prelude::*;
+pub struct Error {}
+//@extract lightning/src/util/persist.rs :: const CHANNEL_MONITOR_PERSISTENCE_PRIMARY_NAMESPACE
+//@rw R1
+    : &str
+//@with
+    : &'static str
+//@end
+//@extract lightning/src/util/persist.rs :: const CHANNEL_MONITOR_PERSISTENCE_SECONDARY_NAMESPACE
+//@rw R1
+    : &str
+//@with
+    : &'static str
+//@end
+//@extract lightning/src/util/persist.rs :: const ARCHIVED_CHANNEL_MONITOR_PERSISTENCE_PRIMARY_NAMESPACE
+//@rw R1
+    : &str
+//@with
+    : &'static str
+//@end
+//@extract lightning/src/util/persist.rs :: const ARCHIVED_CHANNEL_MONITOR_PERSISTENCE_SECONDARY_NAMESPACE
+//@rw R1
+    : &str
+//@with
+    : &'static str
+//@end
+//@extract lightning/src/chain/mod.rs :: enum ChannelMonitorUpdateStatus
+//@strip chain
+//@end
+// facts about the store learned from the results of its operations (timeless: nobody else deletes from the archive, and the live
+// value of a key does not change during archive_persisted_channel)
+pub uninterp spec fn write_ok(primary: Seq<char>, secondary: Seq<char>, key: Seq<char>, value: Seq<u8>) -> bool;
+pub uninterp spec fn live_value(key: Seq<char>) -> Seq<u8>;
+pub open spec fn archived(key: Seq<char>, value: Seq<u8>) -> bool { write_ok(ARCHIVED_CHANNEL_MONITOR_PERSISTENCE_PRIMARY_NAMESPACE@, ARCHIVED_CHANNEL_MONITOR_PERSISTENCE_SECONDARY_NAMESPACE@, key, value) }
+pub struct Store {}
+impl Store {
+    #[verifier::external_body] pub fn write(&self, primary: &str, secondary: &str, key: &str, value: Vec<u8>) -> (r: Result<(), Error>)
+        ensures (r is Ok) == write_ok(primary@, secondary@, key@, value@) { unimplemented!() }
+    #[verifier::external_body] pub fn read(&self, primary: &str, secondary: &str, key: &str) -> (r: Result<Vec<u8>, Error>)
+        ensures r is Ok && primary@ == CHANNEL_MONITOR_PERSISTENCE_PRIMARY_NAMESPACE@ ==> r->Ok_0@ == live_value(key@) { unimplemented!() }
+    // (P) the obligation the caller must discharge: the live copy of a monitor may only be deleted once the very same bytes are in the archive
+    #[verifier::external_body] pub fn remove(&self, primary: &str, secondary: &str, key: &str, lazy: bool) -> (r: Result<(), Error>)
+        requires primary@ == CHANNEL_MONITOR_PERSISTENCE_PRIMARY_NAMESPACE@ ==> archived(key@, live_value(key@)) { unimplemented!() }
+}
+pub struct MonitorName {}
+impl MonitorName {
+    pub uninterp spec fn key(&self) -> Seq<char>;
+    #[verifier::external_body] pub fn to_key(&self) -> (r: String) ensures r@ == self.key() { unimplemented!() }
+}
+pub struct ChannelMonitor {}
+impl ChannelMonitor {
+    pub uninterp spec fn bytes(&self) -> Seq<u8>;
+    #[verifier::external_body] pub fn encode(&self) -> (r: Vec<u8>) ensures r@ == self.bytes() { unimplemented!() }
+}
+pub struct ChannelMonitorUpdate {}
+impl Store {
+//@extract lightning/src/util/persist.rs :: impl Sized Persist for K :: fn persist_new_channel
+//@strip chain
+//@rw R5
+    monitor: &ChannelMonitor<ChannelSigner>,
+//@with
+    monitor: &ChannelMonitor,
+//@ret r
+//@ensures P C19 a-new-monitor-is-reported-persisted-exactly-when-the-store-accepted-the-full-monitor-under-its-own-key
+    (r is Completed) == write_ok(CHANNEL_MONITOR_PERSISTENCE_PRIMARY_NAMESPACE@, CHANNEL_MONITOR_PERSISTENCE_SECONDARY_NAMESPACE@, monitor_name.key(), monitor.bytes()),
+    !(r is InProgress),
+//@end
+//@extract lightning/src/util/persist.rs :: impl Sized Persist for K :: fn update_persisted_channel
+//@strip chain
+//@rw R5
+    monitor: &ChannelMonitor<ChannelSigner>,
+//@with
+    monitor: &ChannelMonitor,
+//@ret r
+//@ensures P C19 an-update-is-reported-persisted-exactly-when-the-store-accepted-the-full-updated-monitor-under-its-own-key
+    (r is Completed) == write_ok(CHANNEL_MONITOR_PERSISTENCE_PRIMARY_NAMESPACE@, CHANNEL_MONITOR_PERSISTENCE_SECONDARY_NAMESPACE@, monitor_name.key(), monitor.bytes()),
+    !(r is InProgress),
+//@mutant failed_write_reported_as_completed
+    Err(_) => chain::ChannelMonitorUpdateStatus::UnrecoverableError, } } fn archive_persisted_channel
+//@with
+    Err(_) => chain::ChannelMonitorUpdateStatus::Completed, } } fn archive_persisted_channel
+//@end
+//@extract lightning/src/util/persist.rs :: impl Sized Persist for K :: fn archive_persisted_channel
+//@mutant live_copy_removed_even_if_archiving_failed
+    Err(_e) => return,
+//@with
+    Err(_e) => {},
+//@end
+}
+}
 }
 fn main() {}
